@@ -100,6 +100,14 @@ pub fn programs(family: &str, tier: Tier) -> Vec<Prog> {
         p.pick = Pick::First;
         p.pin_driver = true;
         out.push(p);
+        // make_stale requested while the expert node is unobserved (after seed C14-d)
+        let mut p = base("sum/ab-driver-stale", Cons::Sum, &[A, B]);
+        p.max_mult = 1;
+        p.toggles = vec![0];
+        p.stale = true;
+        p.pin_driver = true;
+        p.init = vec![1, 0];
+        out.push(p);
         let mut p = base("sum/am-driver-last", Cons::Sum, &[A, M]);
         p.toggles = vec![0];
         p.pick = Pick::Last;
